@@ -292,3 +292,43 @@ def semantic_search(ctx, lib, run, b, a, tag, nmax=2):
             if vb != va:
                 return n, "*".join(v if k == 1 else f"{v}**{k}" for v, k in m), str(vb), str(va)
     return None
+
+
+def report_mismatches(ctx, lib, PASS, mism, model, theorem, where):
+    """mism: cases (dicts with run, b, a, res) whose Polar output differs from the model.
+    Looks for a semantic failing input among them (reference semantics on Polar's two
+    snapshots, at most 8 searches, programs of the extra stream first because they are
+    small); reports the first failing input found, and up to two of the remaining mismatches
+    as broken correspondence."""
+    import json
+    order = sorted(mism, key=lambda c: (not c["run"].get("extra"), len(c["b"]["body"])))
+    found = None
+    for k, c in enumerate(order[:8]):
+        sem = semantic_search(ctx, lib, c["run"], c["b"], c["a"], f"sem_{PASS}_{k}")
+        if sem:
+            found = (c, sem)
+            break
+    if found:
+        c, sem = found
+        run, b, a = c["run"], c["b"], c["a"]
+        ctx.violation(f"pass:{PASS}:{run['text']}:{json.dumps(run['opts'], sort_keys=True)}",
+                      {"program_text": run["text"], "options": run["opts"], "pass": PASS, "n": sem[0], "observed": f"E({sem[1]})",
+                       "before_pass": sem[2], "after_pass": sem[3],
+                       "before_pass_program": [ga_text(x) for x in b["init"]] + ["while true:"] + [ga_text(x) for x in b["body"]],
+                       "after_pass_program": [ga_text(x) for x in a["init"]] + ["while true:"] + [ga_text(x) for x in a["body"]]},
+                      f"after {PASS} (options {run['opts']}) E({sem[1]}) after {sem[0]} iterations is {sem[3]}, but {sem[2]} before the "
+                      f"pass (reference semantics on Polar's two snapshots)\n{run['text']}")
+    rest = [c for c in mism if not found or c is not found[0]]
+    for c in rest[:2]:
+        run, b, a = c["run"], c["b"], c["a"]
+        eq, _, d = c["res"]
+        allp = where(a)
+        what = (f"{PASS}: Polar's output differs from the model {model} "
+                + (f"at assignment {d}" if not eq else "outside the rewritten part (initial block / guard changed)")
+                + f" (options {run['opts']}); theorem {theorem} no longer covers the code\n{run['text']}")
+        ctx.violation(f"model:{PASS}:{run['text']}:{json.dumps(run['opts'], sort_keys=True)}",
+                      {"correspondence": f"{model}  vs  {PASS}.execute", "theorem": theorem,
+                       "program_text": run["text"], "options": run["opts"], "first_differing_assignment": d,
+                       "before_pass": [ga_text(x) for x in where(b)], "after_pass_polar": [ga_text(x) for x in allp],
+                       "polar_assignment_at_difference": ga_text(allp[d]) if d < len(allp) else None},
+                      what, no_input=True)
